@@ -279,6 +279,14 @@ func runComputeProps(prop string) func(h *H) {
 					a = 0.001
 					e = 0.05
 				}
+				if g.intn(8) == 0 {
+					// alpha so close to 1 that one step from ANY start lands within epsilon of the pre-trust: the
+					// first check must still compare the iterate with the vector the run started from
+					a = []float64{0.999, 1 - 1e-6, 1 - 1e-9}[g.intn(3)]
+					e = []float64{1e-2, 1e-4, 1e-6}[g.intn(3)]
+					o = copts{t0: g.distribution(dim)}
+					g.count("alpha-near-one-with-initial-trust")
+				}
 				if g.intn(4) == 0 {
 					// "resume": warm start from the partial result of a run capped at k iterations, first
 					// check of the resumed run scheduled at iteration k
@@ -444,6 +452,11 @@ func runComputeProps(prop string) func(h *H) {
 		h.notes["outcomes"] = outcomes
 		if prop == "C02" {
 			runOapiC02(h)
+			// the gRPC front-end: stored collections of every size relation (created-but-empty, flushed, shorter,
+			// longer), computes judged against the documented scores
+			for k := 0; k < h.budget(60, 1200); k++ {
+				grpcHistory(h, "C02", g.intn(h.budget(24, 60))+12, false)
+			}
 		}
 	}
 }
